@@ -174,7 +174,7 @@ func (n *xnode) emit(out *[]string, need int) {
 		*out = append(*out, n.text)
 	case "bin":
 		p := c20Prec(n.op)
-		n.kids[0].emit(out, p)   // left-assoc: same level allowed on the left
+		n.kids[0].emit(out, p) // left-assoc: same level allowed on the left
 		*out = append(*out, n.op)
 		n.kids[1].emit(out, p+1) // right operand must bind tighter
 	case "un":
